@@ -122,6 +122,14 @@ def t_if(d, k):
                 else:
                     exp = sub(ANY, S(2), nerr(o, ANY, S(2)), (), ("else",)) if has_else else []
                 yield Row("then=%s else=%s %s" % (has_then, has_else, _bits(o)), S(0), ANY, schema, o, exp)
+    # boolean subschemas in the branches: `false` is falsy and empty, yet it must be applied
+    for branch in ("then", "else"):
+        for b in (True, False):
+            schema = {"if": S(0), branch: b}
+            for o in oracles([(ANY, S(0))], two=False):
+                taken = (branch == "then") == (not nerr(o, ANY, S(0)))
+                exp = sub(ANY, b, nerr(o, ANY, b), (), (branch,)) if taken else []
+                yield Row("%s=%s %s" % (branch, b, _bits(o)), S(0), ANY, schema, o, exp)
 
 
 def t_contains(d, k):
@@ -170,6 +178,17 @@ def t_items(d, k):
                 yield Row("%s, array of %d %s" % (lab, n, _bits(o)), val, inst, {k: val}, o, exp)
     s = X(0, ("string",))
     yield Row("non-array", S(0), s, {k: S(0)}, {(vkey(s), "S0"): 1}, [])
+    # elements that are different JSON values but equal (and hash alike) in Python: 1 / true / 1.0, 0 / false, "" and so on;
+    # each is validated on its own (a memo of "already passed" values keyed by == would skip the look-alike)
+    for elems in ([1, True], [True, 1], [0, False, 0.0], [1.0, 1, True, 1], [None, 0, "", False], [[1], [True]], [{"a": 1}, {"a": True}]):
+        for bad in range(len(elems)):
+            o = {(vkey(x), "S0"): (1 if i == bad else 0) for i, x in enumerate(elems)}
+            if len(o) != len(elems):
+                continue        # two elements with the same key (1 twice): one verdict for both
+            exp = []
+            for i, x in enumerate(elems):
+                exp += sub(x, S(0), 1 if i == bad else 0, (i,), ())
+            yield Row("object form, look-alike elements %r, element %d invalid" % (elems, bad), S(0), list(elems), {k: S(0)}, o, exp)
 
 
 def t_additionalItems(d, k):
@@ -367,6 +386,7 @@ def run_row(prog, f, row):
     try:
         res = ev.call_func(f, [stub, row.value, row.instance, row.schema], {})
         out = list(res) if res is not None else []
+        row.asked = list(stub.asked)
     except Undecided as u:
         return "undecided", str(u)
     except PyRaise as p:
